@@ -1,6 +1,6 @@
 import FrappyDrive.Util
 import FrappyDrive.DTypes
-import FrappyModel.Datatypes.Export
+import FrappyModel.Client.CacheDT
 import FrappyModel.Spec.C12
 import FrappyModel.Generated.C12
 /- line-protocol glue for C12 (not part of any theorem) -/
@@ -75,9 +75,7 @@ def parseDesc (j : Json) : R (List ModDesc) := do
     return ⟨← getStr (← fld m "name"), accs⟩
 
 /-- the datatypes the client rebuilt from the description, as trees: `[[module, parameter, tree], …]` -/
-abbrev DtTable := List ((Str × Str) × DType Float)
-
-def parseDts (j : Json) : R DtTable := do
+def parseDts (j : Json) : R (DtTable Float) := do
   (← arr j).mapM fun e => do
     match ← arr e with
     | [m, p, tree] => return ((← getStr m, ← getStr p), ← dtypeOfJson tree)
@@ -85,13 +83,10 @@ def parseDts (j : Json) : R DtTable := do
 
 /-- the import oracle of the receive-loop model, instantiated with the datatype model (`Datatypes.importValue`, C01/C02)
 on the parameter's tree: nothing of the implementation's `import_value` enters the judgement -/
-def impOf (tab : DtTable) (m p : Str) (j : String) : Option String :=
-  match dictGet tab (m, p), (Json.parse j).toOption.bind (fun x => (jvalOfJson x).toOption) with
-  | some dt, some jv =>
-    match Frappy.Datatypes.importValue dt jv with
-    | .ok v => some (normP v)
-    | .error _ => none
-  | _, _ => none
+def impOf (tab : DtTable Float) (m p : Str) (j : String) : Option String :=
+  match (Json.parse j).toOption.bind (fun x => (jvalOfJson x).toOption) with
+  | some jv => (dtImp tab m p jv).map normP
+  | none => none
 
 def parseBehave (j : Json) : R (List (Nat × Outcome)) := do
   (← arr j).mapM fun e => do
